@@ -14,7 +14,7 @@ fn pat_class(o: &O) -> String { let mut ks: Vec<&'static str> = vec![]; fn rec(o
 pub fn run(ctx: &Ctx) -> i32 {
     let th = ctx.tier.thorough();
     let w = if th { 6 } else { 5 };
-    let mut trees = families::plain(w); trees.extend(families::nsn()); trees.extend(families::valued());
+    let mut trees = families::plain(w); trees.extend(families::nsn()); trees.extend(families::valued().into_iter().enumerate().filter(|(i, _)| th || i % 6 < 2).map(|(_, m)| m)); // quick: each value as subject and as object
     { // bases with two and three assertions (weight 8 and 11), so that regrouped near misses and several same-digest positions occur
         use crate::refmodel::tree::{assertion as asr, leaf_text as lt, node};
         let (a, one, k) = (lt("a"), M::Leaf(crate::refmodel::dcbor::V::U(1)), M::Known(1));
